@@ -53,7 +53,9 @@ func winMunmapWithHolders(s *simrt.Sim, t *simrt.Task) bool {
 		// neither a reader count nor the lock nor a pointer. (Counting it as a
 		// holder kept the closing of a mapping away from half-registered
 		// counters and so hid finding 12.18 from C03 and C04.)
-		if atListStep(u.Label) {
+		if atListStep(u.Label) || strings.HasPrefix(u.Label, "sync f.mu.Lock") {
+			// (likewise a thread about to take the file's mutex: it looks its
+			// mapping up only once it holds the mutex)
 			continue
 		}
 		return true
